@@ -130,7 +130,7 @@ def encode_data(frames, coding):
 
 
 def write_sphere(frames, coding, sample_rate=16000, blocks=None, layout_seed=0, n_extra=0,
-                 declared_count=None, long_extra=0, omit_byte_format=False):
+                 declared_count=None, long_extra=0, omit_byte_format=False, pad=b" "):
     """Return the bytes of a SPHERE file holding `frames` ((n, c) array)."""
     frames = np.asarray(frames)
     n, c = frames.shape
@@ -138,7 +138,7 @@ def write_sphere(frames, coding, sample_rate=16000, blocks=None, layout_seed=0, 
         coding, c, n if declared_count is None else declared_count, sample_rate, layout_seed, n_extra,
         long_extra, omit_byte_format,
     )
-    return build_header(fields, blocks) + encode_data(frames, coding)
+    return build_header(fields, blocks, pad) + encode_data(frames, coding)
 
 
 # ---------------------------------------------------------------------------- self test
